@@ -185,6 +185,8 @@ struct QueTarget
         SA.junk_fill = p.knob("alloc_junk", 1) != 0;
         SA.reuse_lifo = p.knob("alloc_reuse", 0) != 0;
         SA.junk_seed = (unsigned char)p.knob("junk_seed", 0x5b);
+        SA.passthrough = p.knob("alloc_default", 0) != 0;
+        if (SA.passthrough) c.st.add("probe.default_allocator_a_alloc_");
         SA.classify = [this](void *addr, size_t size) -> char const * {
             char const *s = g_shared->site;
             if (strstr(s, "a_que_new")) return "que_header";
@@ -283,6 +285,7 @@ struct QueTarget
             void *f = a_que_fore(q), *b = a_que_back(q);
             if (len == 0) { if (f || b) c.fail("access-wrong-element", "a_que_fore", "fore/back of an empty queue is not NULL"); }
             else if (f != x.M.front().addr || b != x.M.back().addr) c.fail("access-wrong-element", "a_que_fore", "fore/back do not designate the first/last element");
+            else if (a_que_fore_(q) != f || a_que_back_(q) != b) c.fail("access-wrong-element", "a_que_fore_", "unchecked and checked fore/back disagree");
             break;
         }
         case Q_PUSH_SORT:
@@ -412,6 +415,7 @@ static inline void gen_que_plan(Rng &r, Plan &p, bool for_faults, int tier)
     p.set("target", 3);
     p.set("alloc_move", r.chance(1, 2)); p.set("alloc_junk", r.chance(3, 4)); p.set("alloc_reuse", r.chance(1, 4));
     p.set("junk_seed", (int64_t)r.below(256));
+    p.set("alloc_default", r.chance(1, 6));
     static const int64_t KS[] = {1, 2, 4, 16, 64, 1000};
     p.set("keyspace", r.pick(KS));
     static const int64_t ML[] = {3, 6, 12, 40, 90};
